@@ -16,4 +16,20 @@ PROPS = {
         "assumptions": ["the age trigger depends on the wall clock; the oracle accepts a flush without deterministic trigger only when the age threshold is 1 ms",
                         "the global memory limit is reset between cases through the verif hook ResetMemoryForVerif"],
     },
+    "C16": {
+        "pkg": "hpure", "test": "TestC16", "replay_test": "TestC16_Replay", "level": "exploration",
+        "quick": T(8, 3000, fixed=["TestC16_Exhaustive"]), "thorough": T(16, 60000, fixed=["TestC16_Exhaustive"], timeout=3000),
+        "rule": "layer 1: real util.ChannelMapping driven by the manager's direct-assignment protocol over counts 0..6 x 0..6 and random offer sequences (rapid), "
+                "plus exhaustive enumeration of all offer sequences of length 5 (quick) / 6 (thorough) for counts 1..3 x 1..3; oracle on public queries: function, stability, "
+                "quota ceil(larger/smaller) (1-to-1 for equal counts), assignment iff quota free. non-trivial = at least one offer refused by the quota after >= 2 assignments; distinct = distinct (counts, offer sequence)",
+        "assumptions": ["the wait/forward part of the protocol is in the manager, not in ChannelMapping; it is exercised by the reader harness"],
+    },
+    "C17": {
+        "pkg": "hpure", "test": "TestC17", "replay_test": "TestC17_Replay", "level": "exploration",
+        "quick": T(16, 1500), "thorough": T(16, 40000, timeout=3000),
+        "rule": "rapid state machine over the real ReplicateMeteImpl with a JSON-round-tripping in-memory store: report(task,msg,1..2 shards) / remove / reload over 3 tasks (ids in prefix relation) x 1..3 messages "
+                "(collection and partition kind, 1..4 target shards); oracle after every step: store == memory == model (union of reports), ready iff union == target. "
+                "non-trivial = some message received >= 3 reports, or a reload happened while a message was partially reported; distinct = distinct history",
+        "assumptions": ["callers always pass the same TargetChannels for a message and report shards from that set (what replicate_channel_manager does)"],
+    },
 }
